@@ -687,6 +687,7 @@ func runOpsimWL(e *Env) {
 		oracleC03(r)
 		oracleC04(r)
 		oracleC07op(r)
+		oracleC07sync(r)
 		oracleC06(r)
 		oracleC02(r)
 		oracleC01(r)
